@@ -7,7 +7,10 @@ package c06
 import (
 	"encoding/json"
 	"fmt"
+	"runtime"
 	"strconv"
+	"sync"
+	"sync/atomic"
 	"testing"
 
 	"github.com/vx-labs/wasp/v4/wasp"
@@ -310,4 +313,95 @@ func TestRandom(t *testing.T) {
 		}
 		check(t, c, labels...)
 	})
+}
+
+// TestExhaustedRace: the allocator under the one schedule its histories cannot reach — every
+// identifier is outstanding, one goroutine asks for another while a second one returns one
+// at the same moment. Whatever the interleaving: the asker gets nothing or the returned
+// identifier; and once both are done an identifier that was returned is available.
+func TestExhaustedRace(t *testing.T) {
+	rounds := ev.Scale(300000, 2000000)
+	for _, size := range []int32{1, 2, 3} {
+		c := map[string]interface{}{"scenario": "Get racing Put on an exhausted allocator", "range": fmt.Sprintf("1..%d", size), "rounds": rounds}
+		ev.Case(true, c, "exhausted-race")
+		pool := wasp.VerifNewMIDPool(1, size)
+		held := map[int32]bool{}
+		for {
+			v := pool.Get()
+			if v < 1 || v > size {
+				break
+			}
+			held[v] = true
+		}
+		if int32(len(held)) != size {
+			ev.Fail(t, "idpool-race", c, "allocator 1..%d handed out %d identifiers before reporting exhaustion", size, len(held))
+			return
+		}
+		var count, gen int32
+		wait := func() {
+			g := atomic.LoadInt32(&gen)
+			if atomic.AddInt32(&count, 1) == 2 {
+				atomic.StoreInt32(&count, 0)
+				atomic.AddInt32(&gen, 1)
+				return
+			}
+			for i := 0; atomic.LoadInt32(&gen) == g; i++ {
+				if i%64 == 63 {
+					runtime.Gosched()
+				}
+			}
+		}
+		got := make([]int32, rounds)
+		var wg sync.WaitGroup
+		bad := ""
+		wg.Add(2)
+		go func() { // the asker
+			defer wg.Done()
+			for r := 0; r < rounds; r++ {
+				wait()
+				got[r] = pool.Get()
+				wait()
+				wait()
+			}
+		}()
+		go func() { // the returner, and the judge between rounds
+			defer wg.Done()
+			for r := 0; r < rounds; r++ {
+				id := int32(r%int(size)) + 1
+				wait()
+				pool.Put(id)
+				wait()
+				// quiescent
+				v := got[r]
+				switch {
+				case v == id:
+					// the asker got it: it is outstanding again
+				case v >= 1 && v <= size:
+					if bad == "" {
+						bad = fmt.Sprintf("round %d: the asker was handed %d, which is outstanding (only %d was returned)", r, v, id)
+					}
+				default:
+					// the asker was told "exhausted": the returned identifier must be available now
+					if w := pool.Get(); w != id && bad == "" {
+						bad = fmt.Sprintf("round %d: identifier %d was returned while another goroutine was told the allocator was exhausted; afterwards Get() = %d, want %d", r, id, w, id)
+					}
+				}
+				wait()
+			}
+		}()
+		wg.Wait()
+		ev.Count("race_rounds", int64(rounds))
+		if bad != "" {
+			ev.Fail(t, "idpool-race", c, "%s", bad)
+			return
+		}
+	}
+}
+
+func init() {
+	kinds["idpool-race"] = func(t ev.TB, raw json.RawMessage) {
+		if tt, ok := t.(*testing.T); ok {
+			TestExhaustedRace(tt)
+		}
+	}
 }
